@@ -144,10 +144,14 @@ def session_task(W, payload, r, prog, out):
     I = S.I
     h = prog_hash(ops)
     runners = []; runner_wl = []
+    cur_defaults = None
+    n_done = 0
     for (hop, lop, outc) in zip(hist, lops, pred["outcomes"]):
         cur_wl = None
+        n_done += 1
         if hop[0] == "defaults":
             I.model.set_default_parameters({k: float(Fr(v)) for k, v in hop[1].items()})
+            cur_defaults = dict(hop[1])
             continue
         if hop[0] == "get_runner":
             try:
@@ -176,6 +180,21 @@ def session_task(W, payload, r, prog, out):
                 rr = {"ok": False, "err": type(e).__name__}
         else:
             rr = I.apply({"op": "run", "params": [[k, v] for k, v in hop[1].items()], "solver": solver0, "rebuild": hop[2]})
+            # oracle on the real code alone: the SAME call on a fresh model with the same definition and the same current defaults must give the
+            # same results (when the fresh model cannot run at all - a parameter is missing - the comparison is the known finding's and is left
+            # to the session model)
+            if rr["ok"]:
+                Fo = build(ops)
+                if Fo is not None:
+                    if cur_defaults is not None:
+                        Fo.model.set_default_parameters({k: float(Fr(v)) for k, v in cur_defaults.items()})
+                    fo = Fo.apply({"op": "run", "params": [[k, v] for k, v in hop[1].items()], "solver": solver0, "rebuild": False})
+                    out["evals"] += 1
+                    if fo["ok"] and not res_equal(rr, fo):
+                        fail(out, "a model.run at the end of a call history gives other results than the same call on a fresh model with the same definition and defaults",
+                             "c11", payload, history=lops[:n_done], program=ops,
+                             published=sorted(k for k, _ in rr["derived"]), fresh=sorted(k for k, _ in fo["derived"]))
+                        break
         out["evals"] += 1
         if ("ok" in outc) != rr["ok"]:
             out["diffs"].append({"stage": "S9", "what": "session: raise / no-raise", "impl": rr.get("err", "ok"), "model": outc, "history": lops, "prescribed": False,
